@@ -160,7 +160,7 @@ Section EditStop.
     assert (Hp : forall st, pres_ok (pass_insert P finder (rc_cfg rc) (o_stop2 o) (o_rfail2 o) (o_fault o) files 0 st) = false).
     { intros st. apply (pass_insert_stop (rc_cfg rc) (o_stop2 o) (o_rfail2 o) (o_fault o) k files 0 st Hs Hk). }
     destruct (cached_id rc lk) as [id|].
-    - specialize (Hp (mkIst id false 0 [] [])).
+    - specialize (Hp (mkIst (N.max id start_id) false 0 [] [])).
       destruct (pass_insert _ _ _ _ _ _ _ _ _); cbn in Hp |- *; try discriminate.
     - destruct (pass_nextid _ _ _ _ _ _ _) as [a|a|a|rs]; try discriminate.
       destruct (nextid_reduce start_id rs) as [next miss].
